@@ -243,7 +243,7 @@ def mcl_envA {α X : Type} (cfg : MCfg) (envB : mcl_EnvB α X) (d : MKey) : mcl_
 
 /-- `elements.Element(i)` of a digest table whose elements hold groups of type `α`: only used (by the generated code) to
     tell a single element from a group and to hand the single element back -/
-def mcl_elemAtH' {α : Type} (g : HkeyElems α) (i : Int) : Gen.TransElem.element (HkeyElems α) SV × Option GE :=
+def mcl_elemAtH {α : Type} (g : HkeyElems α) (i : Int) : Gen.TransElem.element (HkeyElems α) SV × Option GE :=
   match g.elems[i.toNat]? with
   | some (.single x) => (.single (mei_cE x), none)
   | some (.inl _) => (.inlineGroup { elements := g }, none)
@@ -274,7 +274,7 @@ def mcl_gopsH {α : Type} (envA : MKey → mcl_EnvA α) : mcl_GOps (HkeyElems α
   size := fun g => (mel_cH g).size
   count := fun g => UInt32.ofInt (Int.ofNat (mel_cH g).elems.length)
   firstKey := fun g => (mel_cH g).hkeys.headD 0
-  elemAt := mcl_elemAtH'
+  elemAt := mcl_elemAtH
   newS := fun lvl _ => { level := lvl.toNat, hkeys := [], elems := [], size := Gen.hkeyElementsPrefixSize }
   newH := mcl_newH
 
